@@ -97,6 +97,14 @@ var routes = []route{
 		o, m := c.pick("$a", "$o['q']")
 		return "", fmt.Sprintf("$a = %s;\n  $o = ['p' => 0];\n  $o['q'] = $a;\n  %s", c.lit, c.around(o, m))
 	}},
+	{"arr-append", kindValue, both(), func(c *caseCtx) (string, string) {
+		o, m := c.pick("$a", "$o[1]")
+		return "", fmt.Sprintf("$a = %s;\n  $o = [0];\n  $o[] = $a;\n  %s", c.lit, c.around(o, m))
+	}},
+	{"arr-push", kindValue, both(), func(c *caseCtx) (string, string) {
+		o, m := c.pick("$a", "$o[1]")
+		return "", fmt.Sprintf("$a = %s;\n  $o = [0];\n  array_push($o, $a);\n  %s", c.lit, c.around(o, m))
+	}},
 	{"arr-lit", kindValue, both(), func(c *caseCtx) (string, string) {
 		o, m := c.pick("$a", "$o[1]")
 		return "", fmt.Sprintf("$a = %s;\n  $o = [0, $a];\n  %s", c.lit, c.around(o, m))
@@ -160,12 +168,14 @@ type tcase struct {
 	shapeLit string
 }
 
+// key is the cell of the property's matrix the case belongs to: route/side/mutation/path.
+// No spaces: KNOWN_FINDINGS.txt is split on white space.
 func (t *tcase) key() string {
-	return fmt.Sprintf("route=%s side=%s mut=%s path=%s", t.route.name, t.side, t.mut.name, t.mut.path)
+	return t.route.name + "/" + t.side + "/" + t.mut.name + "/" + t.mut.path
 }
 
 func (t *tcase) describe() string {
-	return fmt.Sprintf("%s shape=%s mutation=`%s`", t.key(), t.shapeLit, t.mut.code("L"))
+	return fmt.Sprintf("route=%s written-through=%s mutation=%s path=%s shape=%s write=`%s`", t.route.name, t.side, t.mut.name, t.mut.path, t.shapeLit, t.mut.code("L"))
 }
 
 // render returns the definitions and the guarded invocation of one case.
